@@ -142,7 +142,7 @@ HRPconvert(int32 fid, uint16 tag, uint16 ref, int32 xdim, int32 ydim, int16 sche
     access_rec->special_func = &cr_funcs;
     access_rec->special      = SPECIAL_COMPRAS;
     access_rec->posn         = 0;
-    access_rec->access       = DFACC_RDWR;
+    access_rec->access       = (file_rec->access & DFACC_WRITE) ? DFACC_RDWR : DFACC_READ;
     access_rec->file_id      = fid;
     access_rec->appendable   = FALSE; /* data is non-appendable */
     file_rec->attach++;
